@@ -518,8 +518,8 @@ def choose_via(case, rng_bits: int) -> str:
     return ("format", "renderer", "draw")[(rng_bits // 2) % 3]
 
 
-def trace_of(case):
-    """Render one case with the real code; returns the trace record for Trace_Block."""
+def case_reference(case):
+    """Source, expected pixels at render resolution, threshold, oracle kind and route of a case."""
     rng = random.Random(case["seed"])
     w, h = case["src"]
     src = make_source(rng, case["mode"], w, h, case["style"])
@@ -557,13 +557,24 @@ def trace_of(case):
     else:
         rows, thr = pixels_at_render_resolution(src, rw, rh, case["alpha"], tbg)
         oracle = "pillow"
-    handed = src.copy()
-    out = render_block(handed, rw, rh, case["alpha"], case["split"], via)
+    return src, rows, thr, oracle, via
+
+
+def case_trace(case, src, handed, rows, thr, out):
+    rw, rh = case["rw"], case["rh"]
     stream = lex_checked(out, case)
-    return dict(rw=rw, rh=rh, kitty=bool(case["kitty"]), tbg=list(tbg or []), thr=thr,
+    return dict(rw=rw, rh=rh, kitty=bool(case["kitty"]), tbg=list(case["tbg"] or []), thr=thr,
                 uniform=len(set(src.getdata())) == 1, exp=cells_of(rows, rw, rh),
                 srcb=pil_shape(src), srca=pil_shape(handed),
-                toks=stream.toks, gfx=[]), oracle
+                toks=stream.toks, gfx=[])
+
+
+def trace_of(case):
+    """Render one case with the real code; returns the trace record for Trace_Block."""
+    src, rows, thr, oracle, via = case_reference(case)
+    handed = src.copy()
+    out = render_block(handed, case["rw"], case["rh"], case["alpha"], case["split"], via)
+    return case_trace(case, src, handed, rows, thr, out), oracle
 
 
 def pil_shape(img):
@@ -704,6 +715,125 @@ def history_traces(h):
     return out_traces
 
 
+# ----------------------------------------------------------------------------------------------
+# code -> spec: interleaved renders (seeded/C02-y2)
+# ----------------------------------------------------------------------------------------------
+class Seam:
+    """Makes the k-th call of a module-level name of term_image.image.block that render A looks up while
+    it is in progress first perform ``action`` (a COMPLETE render of another BlockImage), then proceed.
+    Deterministic stand-in for two overlapping renders (two threads): no thread, same interleaving on
+    every run.  ``get_fg_bg_colors`` is called right after the output buffer is set up (the terminal
+    colour query, a real blocking point); ``zip`` is looked up in the module's globals three times per
+    line of the render (row pairing + the pixel loop), so its k-th call lies BETWEEN two lines A writes."""
+
+    def __init__(self, name, k, action):
+        self.name, self.k, self.action = name, k, action
+        self.calls, self.busy, self.reached = 0, False, False
+
+    def __enter__(self):
+        import builtins
+        import sys
+
+        self.mod = sys.modules.get("term_image.image.block")
+        if self.mod is None:
+            raise tlc.MachineryError("seam module term_image.image.block is missing")
+        self.had = self.name in vars(self.mod)
+        self.orig = vars(self.mod).get(self.name, getattr(builtins, self.name, None))
+        if not callable(self.orig) or (self.name != "zip" and not self.had):
+            raise tlc.MachineryError(f"seam term_image.image.block.{self.name} is missing")
+
+        def wrapper(*a, **kw):
+            if not self.busy:
+                self.calls += 1
+                if self.calls == self.k:
+                    self.busy = True
+                    try:
+                        self.reached = True
+                        self.action()
+                    finally:
+                        self.busy = False
+            return self.orig(*a, **kw)
+
+        setattr(self.mod, self.name, wrapper)
+        return self
+
+    def __exit__(self, *exc):
+        if self.had:
+            setattr(self.mod, self.name, self.orig)
+        else:
+            delattr(self.mod, self.name)
+        return False
+
+
+def gen_interleaved(rng: random.Random, tier: str):
+    sizes = [(w, h) for w in range(1, 9) for h in range(1, 6)]
+    reps = 1 if tier == "quick" else 10
+
+    def one():
+        rw, rh = rng.choice(sizes)
+        return dict(mode=rng.choice(MODES), alpha=rng.choice(ALPHAS), split=rng.random() < 0.3, rw=rw, rh=rh,
+                    style=rng.choice(["mixed", "noise", "bilevel"]), seed=rng.randrange(1 << 30),
+                    src=rng.choice([[rw, 2 * rh], [rw, 2 * rh], [7, 13], [16, 9]]))
+
+    for seam in ("get_fg_bg_colors", "zip", "zip", "zip"):
+        for same in (False, False, False, True):
+            for via in ("renderer", "format", "draw", "str"):
+                for _ in range(reps):
+                    kitty, tbg = rng.random() < 0.4, rng.choice(TERM_BGS)
+                    a, b = one(), one()
+                    for c in (a, b):
+                        c.update(kitty=kitty, tbg=tbg)
+                        if c["style"] == "bilevel":
+                            c["mode"], c["src"] = rng.choice(["RGB", "RGBA"]), [c["rw"], 2 * c["rh"]]
+                    a["via"] = "renderer" if a["split"] else via
+                    if a["via"] == "str":
+                        a["alpha"] = 40 / 255
+                    b["via"] = "renderer"
+                    # zip is called once for the pairing of the rows and three times per line
+                    k = 1 if seam != "zip" else 1 + 3 * rng.randrange(0, a["rh"]) + rng.choice([1, 2, 3])
+                    yield dict(a=a, b=b, same=same, seam=seam, k=k)
+
+
+def interleaved_traces(pair):
+    """Render A is suspended at a seam inside BlockImage._render_image; render B (another image object,
+    or the SAME one) runs to completion there; A continues.  Law: renders are independent - both outputs
+    are judged on their own by Trace_Block against their own references."""
+    from term_image.image import BlockImage
+
+    a, b = pair["a"], pair["b"]
+    set_env(a["kitty"], tuple(a["tbg"]) if a["tbg"] else None)
+    src_a, rows_a, thr_a, _, via_a = case_reference(a)
+    handed_a = src_a.copy()
+    image_a = BlockImage(handed_a, width=a["rw"], height=a["rh"])
+    if pair["same"]:
+        b = dict(a, via="renderer", split=b["split"], alpha=b["alpha"], seed=a["seed"])
+        src_b, rows_b, thr_b, _, _ = case_reference(b)  # same source (same seed), B's own alpha
+        image_b, handed_b = image_a, handed_a
+    else:
+        src_b, rows_b, thr_b, _, _ = case_reference(b)
+        handed_b = src_b.copy()
+        image_b = BlockImage(handed_b, width=b["rw"], height=b["rh"])
+    got = {}
+
+    def render_b():
+        kw = {"split_cells": True} if b["split"] else {}
+        got["b"] = image_b._renderer(image_b._render_image, b["alpha"], **kw)
+
+    with Seam(pair["seam"], pair["k"], render_b) as seam:
+        if via_a == "str":
+            out_a = str(image_a)
+        elif via_a == "format":
+            out_a = format(image_a, "1.1" + alpha_spec(a["alpha"]))
+        elif via_a == "draw":
+            out_a = drawn(image_a, a["alpha"])
+        else:
+            out_a = image_a._renderer(image_a._render_image, a["alpha"], **({"split_cells": True} if a["split"] else {}))
+    if not seam.reached:
+        return None
+    return [(case_trace(a, src_a, handed_a, rows_a, thr_a, out_a), "A"),
+            (case_trace(b, src_b, handed_b, rows_b, thr_b, got["b"]), "B")]
+
+
 def alpha_kind(alpha) -> str:
     if alpha is None:
         return "none"
@@ -730,11 +860,39 @@ def tamper(trace):
     return out
 
 
-def code_to_spec(rep: Report, cases, histories=()):
+def code_to_spec(rep: Report, cases, histories=(), interleaved=()):
     traces, owners = [], []
     oracle_free = 0
     hist_kinds = set()
     n_single = 0
+    n_inter = 0
+    seams = {}
+    for pair in interleaved:
+        try:
+            got = interleaved_traces(pair)
+        except tlc.MachineryError:
+            raise
+        except Exception as e:
+            rep.violation(
+                f"block:interleaved:{pair['seam']}:render-raises:{type(e).__name__}",
+                f"an interleaved render raised {type(e).__name__}: {e}; pair={json.dumps(pair)}",
+                {"kind": "interleaved", "pair": pair},
+            )
+            continue
+        if got is None:
+            raise tlc.MachineryError(
+                f"seam term_image.image.block.{pair['seam']} (call {pair['k']}) was never reached during the "
+                f"outer render: {json.dumps(pair)}"
+            )
+        seams[pair["seam"]] = seams.get(pair["seam"], 0) + 1
+        for tr, role in got:
+            rep.evaluations += 1
+            n_inter += 1
+            traces.append(tr)
+            c = pair["a"] if role == "A" else pair["b"]
+            owners.append(dict(c, interleaved=pair, via=f"interleaved:{pair['seam']}:{role}"))
+    if len(interleaved) >= 8 and not (seams.get("get_fg_bg_colors") and seams.get("zip")):
+        raise tlc.MachineryError(f"vacuous: interleaved renders reached seams {seams} only")
     for h in histories:
         try:
             got = history_traces(h)
@@ -802,22 +960,29 @@ def code_to_spec(rep: Report, cases, histories=()):
             raise tlc.MachineryError(f"Terminal.tla: {v['verdict']} for {case}")
         clause = v["verdict"].split(":")[0]
         is_hist = "history" in case
+        is_inter = "interleaved" in case
         rep.violation(
-            f"block:{case['via']}:{clause}" + ("" if is_hist else f":{alpha_kind(case['alpha'])}"),
+            f"block:{case['via']}:{clause}" + ("" if is_hist or is_inter else f":{alpha_kind(case['alpha'])}"),
             f"clause {v['verdict']!r} at cell row {v['row']} col {v['col']} ({v['half']} half) of a "
             f"{tr['rw']}x{tr['rh']} render; expected cell {tr['exp'][v['row']][v['col']]} "
             f"(ur,ug,ub,ua,lr,lg,lb,la), threshold {tr['thr']}, kitty={tr['kitty']}, "
             f"terminal bg={tr['tbg']}; caller's image handed over as {tr['srcb']}, afterwards {tr['srca']}; "
-            + ("history on one image object (reference from a fresh copy of the source): " if is_hist else "case=")
+            + ("history on one image object (reference from a fresh copy of the source): " if is_hist else
+               "interleaved renders (B runs to completion at a seam inside A's render; each judged alone): "
+               if is_inter else "case=")
             + json.dumps(case),
             {"kind": "history", "hist": {k: case[k] for k in ("src", "shape", "seed", "kitty", "tbg")}}
-            if is_hist else {"kind": "trace", "case": case},
+            if is_hist else {"kind": "interleaved", "pair": case["interleaved"]}
+            if is_inter else {"kind": "trace", "case": case},
         )
     rep.extra["traced_renders"] = n_single
-    rep.extra["history_renders"] = len(traces) - n_single
+    rep.extra["history_renders"] = len(traces) - n_single - n_inter
+    rep.extra["interleaved_renders"] = n_inter
+    rep.extra["interleaved_seams"] = seams
     rep.extra["histories"] = len(histories)
     rep.extra["traced_without_resampling_oracle"] = oracle_free
-    for tr, case in itertools.islice(((t, c) for t, c in zip(traces, owners) if "history" not in c), 3):
+    for tr, case in itertools.islice(
+            ((t, c) for t, c in zip(traces, owners) if "history" not in c and "interleaved" not in c), 3):
         rep.sample({"case": case, "expected_first_row": tr["exp"][0][:4],
                     "tokens": [[t["k"], t["n"], t["g"], t["p"]] for t in tr["toks"][:10]]})
 
@@ -915,6 +1080,9 @@ def _main(rep: Report, replay: dict | None) -> None:
         if sc.get("kind") == "history":
             code_to_spec(rep, [], [sc["hist"]])
             return
+        if sc.get("kind") == "interleaved":
+            code_to_spec(rep, [], [], [sc["pair"]])
+            return
         if sc.get("kind") == "line":
             e = dict(kitty=sc["par"][1], split=sc["par"][2], tbg=sc["par"][3], rows=sc["rows"],
                      mode=sc["mode"], alpha_arg=sc["alpha_arg"])
@@ -965,7 +1133,8 @@ def _main(rep: Report, replay: dict | None) -> None:
     cases = list(gen_cases(random.Random(rep.seed * 7919 + 5), rep.tier))
     cases += list(gen_boundary_cases(random.Random(rep.seed * 32452843 + 3), rep.tier))
     histories = list(gen_histories(random.Random(rep.seed * 15485863 + 11), rep.tier))
-    code_to_spec(rep, cases, histories)
+    interleaved = list(gen_interleaved(random.Random(rep.seed * 49979687 + 7), rep.tier))
+    code_to_spec(rep, cases, histories, interleaved)
     timing["traces"] = round(time.time() - t0, 1)
     rep.extra["exhaustive_parts"] = (
         "BlockLine free mode: all reachable loop states over the pixel alphabet for every line length; "
